@@ -20,7 +20,8 @@ EXTENDS TraceLib, Integers, FiniteSets
 
 CONSTANTS Mode, SnapC, DefC, ChainC, Head0C, KnownC
 
-VARIABLES l, ghost, nodeop, lock, body, head, topo, marker, pc, complete, up, broken, crashes, fresh, startedInTopo
+VARIABLES l, ghost, nodeop, lock, body, head, topo, marker, pc, complete, up, broken, crashes, fresh, startedInTopo,
+          ord    \* [last, ok]: topology position of the last snapshot write and whether commit order = position order so far
 
 N == INSTANCE Node WITH Snap <- SnapC, Def <- DefC, Chain <- ChainC, Head0 <- Head0C,
                         MaxCrash <- 1000, Known <- KnownC
@@ -38,6 +39,9 @@ DefP  == [s \in SnapP |-> CASE s = "X" -> D("A", "pledge", FALSE, 1, {})
 SnapQ == {"W", "X", "Y"}
 DefQ  == [s \in SnapQ |-> CASE s = "W" -> D("A", "deposit", FALSE, 1, {})
                             [] s = "X" -> D("A", "pledge", TRUE, 2, {"W"})
+                            [] s = "Y" -> D("B", "deposit", FALSE, 1, {})]
+SnapM == {"X", "Y"}
+DefM  == [s \in SnapM |-> CASE s = "X" -> D("A", "mint", FALSE, 1, {})
                             [] s = "Y" -> D("B", "deposit", FALSE, 1, {})]
 SnapA == {"X", "Y"}
 DefA  == [s \in SnapA |-> CASE s = "X" -> D("N", "accept", FALSE, 0, {})
@@ -57,7 +61,7 @@ Known22 == {"C22-1"}
 
 nvars == <<ghost, nodeop, lock, body, head, topo, marker, pc, complete, up, broken, crashes, fresh, startedInTopo>>
 
-Init == l = 1 /\ N!Init
+Init == l = 1 /\ N!Init /\ ord = [last |-> 0, ok |-> TRUE]
 
 Ev == Trace[l]
 IsEvent(n) == l <= TraceLen /\ Ev.ev = n /\ l' = l + 1
@@ -68,6 +72,7 @@ Reset ==
     /\ head' = Head0C /\ topo' = <<>> /\ marker' = "G"
     /\ pc' = [s \in SnapC |-> 0] /\ complete' = {}
     /\ up' = TRUE /\ broken' = FALSE /\ crashes' = 0 /\ fresh' = FALSE /\ startedInTopo' = {}
+    /\ ord' = [last |-> 0, ok |-> TRUE]
 
 \* light observation made after a call: durable marker, topology, heads, bodies
 LightMatches(o) ==
@@ -83,20 +88,30 @@ FullCall ==
     /\ (Ev.call = "Return" => Ev.res = "ok")
     /\ (Has(Ev, "obs") => LightMatches(Ev.obs))
 
+\* the node assigns topology positions under the lock that also covers the write: snapshots reach
+\* the store in position order
+OrdNext == IF Ev.call = "WriteSnapshot" /\ Has(Ev, "pos")
+           THEN [last |-> Ev.pos, ok |-> ord.ok /\ Ev.pos > ord.last]
+           ELSE ord
+
 Call ==
     /\ IsEvent("Call")
     /\ IF Mode = "full" THEN FullCall ELSE UNCHANGED nvars
+    /\ ord' = OrdNext
+    /\ (Mode \in {"full", "C35"} => OrdNext.ok)
 
 Crash ==
     /\ IsEvent("Crash")
     /\ IF Mode = "full" THEN N!Crash ELSE UNCHANGED nvars
+    /\ UNCHANGED ord
 
 (* ---- the property monitors, on the observation made right after a restart ---- *)
-OConsensus(s) == DefC[s].kind \in {"pledge", "accept"}
+OConsensus(s) == DefC[s].kind \in {"pledge", "accept", "mint"}
 OPos(o, x) == IF x \in SeqToSet(o.topo) THEN CHOOSE i \in 1..Len(o.topo) : o.topo[i] = x ELSE 0
 OUncovered(o) == { i \in 1..Len(o.topo) : OConsensus(o.topo[i]) /\ ~(OPos(o, o.marker) >= i) }
+\* the known finding presupposes that the later snapshot really was written after the uncovered one
 OC21(o) == \/ OUncovered(o) = {}
-           \/ "C21-1" \in KnownC /\ \A i \in OUncovered(o) : i < Len(o.topo)
+           \/ "C21-1" \in KnownC /\ ord.ok /\ \A i \in OUncovered(o) : i < Len(o.topo)
 OC21Known(o) == OUncovered(o) # {}
 
 OC22Good(o) ==
@@ -122,14 +137,16 @@ Restart ==
     /\ CASE Mode = "full" -> FullRestart
          [] Mode = "C21"  -> OC21(Ev.obs) /\ UNCHANGED nvars
          [] Mode = "C22"  -> OC22(Ev.obs) /\ UNCHANGED nvars
+         [] Mode = "C35"  -> Ev.obs.posok /\ UNCHANGED nvars
+    /\ UNCHANGED ord
 
 End ==
     /\ IsEvent("End")
     /\ (Mode = "full" => \A s \in DOMAIN Ev.rest : Ev.rest[s].res = "ok")
-    /\ UNCHANGED nvars
+    /\ UNCHANGED nvars /\ UNCHANGED ord
 
 Next == Reset \/ Call \/ Crash \/ Restart \/ End
-Spec == Init /\ [][Next]_<<l, nvars>>
+Spec == Init /\ [][Next]_<<l, nvars, ord>>
 
 HW == HighWaterOf(l)
 Accepted == TraceAcceptedAt
